@@ -34,6 +34,7 @@ type Corruption struct {
 
 // C17Plan: a store, a checkpoint position, a time zone and corruptions.
 type C17Plan struct {
+	PadRows     int          `json:"padRows,omitempty"` // extend the tip until the longest chain has this many rows (0 = no padding)
 	Hist        *hist.Plan   `json:"hist"`
 	CheckpointH int          `json:"checkpointH"` // newest checkpoint at height CheckpointH % (tip+1); an older one below it if possible
 	TZMinutes   int          `json:"tzMinutes"`
@@ -145,6 +146,17 @@ func runC17(p *C17Plan) (*stats.Case, error) {
 		if _, _, err := r.Deliver(idx); err != nil {
 			r.Close()
 			return nil, fmt.Errorf("step %d: %w", step, err)
+		}
+	}
+	// PadRows: the tip is extended until the exported chain has exactly that many rows (genesis included) - lengths
+	// around multiples of the importers' batch size (500)
+	for i := 0; p.PadRows > 0 && int(r.T.Best.Height)+1 < p.PadRows; i++ {
+		h := model.Header{Version: 1, Prev: r.T.Best.Hash, Merkle: hist.MerkleOf(uint64(3_000_000 + i)), Timestamp: 1650000000 + uint32(i), Bits: 0x1d00ffff, Nonce: uint32(i)}
+		res := r.Add(h)
+		out, _ := r.T.Submit(h)
+		if res.Class != "stored" || out != model.Stored {
+			r.Close()
+			return nil, fmt.Errorf("padding header %d was not stored: %v %v", i, res.Class, res.Err)
 		}
 	}
 	path := r.T.LongestPath()
@@ -418,6 +430,9 @@ var propC17 = Prop[*C17Plan]{
 			o.LongShare, o.LongMin, o.LongMax = 1, 520, quickThorough(700, 1200)
 		}
 		p := &C17Plan{Hist: hist.Gen(t, o)}
+		if o.LongShare == 0 {
+			p.PadRows = rapid.SampledFrom([]int{0, 0, 0, 0, 0, 0, 499, 500, 501, 1000}).Draw(t, "padrows")
+		}
 		p.CheckpointH = rapid.IntRange(0, 1500).Draw(t, "cp")
 		p.TZMinutes = rapid.SampledFrom([]int{0, 0, 60, -300, 330, 765, -720, 840}).Draw(t, "tz")
 		n := rapid.IntRange(2, 9).Draw(t, "ncorr")
